@@ -5,14 +5,20 @@
    harness hands over the raw draw of an identically seeded twin SciPy object and the array ropt
    returned; [check_case] runs Model/Sampler.v on the raw draw and compares, and also evaluates the
    property's clauses directly on the returned array. *)
-From Coq Require Import QArith ZArith List Bool Arith Qabs Qround.
+From Coq Require Import QArith ZArith List Bool Arith Qabs Qround Uint63.
 From Ropt Require Import Base.Num Base.ListX Model.Sampler.
 Import ListNotations.
 Open Scope Q_scope.
 
-(* compact literal of a finite float: m * 2^-e *)
+(* compact literals of a finite float: +-m * 2^-e.  [Fi] takes the mantissa as a primitive-integer
+   literal (elaborating a 16-digit [Z] literal costs ~1.2 ms, a uint63 literal ~0.05 ms; a case file
+   holds thousands of full-precision draws); it is converted to [Z] at once and nothing else in the
+   checker uses primitive integers.  [F] is the general fallback. *)
 Definition F (m : Z) (e : nat) : Q := Qmake m (Pos.shiftl_nat 1 e).
 Arguments F m%Z e%nat.
+Definition Fi (neg : bool) (m e : int) : Q :=
+  Qmake (let z := Uint63.to_Z m in if neg then Z.opp z else z) (Z.to_pos (Z.shiftl 1 (Uint63.to_Z e))).
+Arguments Fi neg m%uint63 e%uint63.
 
 Record scfg := { s_method : method; s_shared : bool; s_default : bool (* no user options *) }.
 
